@@ -97,9 +97,10 @@ Definition same_info (a b : cgnode) : bool :=
   (cn_addr a =? cn_addr b) && (cn_line a =? cn_line b).
 Fixpoint has_dup (ns : list cgnode) : bool :=
   match ns with [] => false | n :: r => existsb (same_info n) r || has_dup r end.
-(* out-edges of equal weight tie in edgeList.Less when the callees print alike (C08's F9) *)
+(* out-edges of equal MAGNITUDE (edgeList.Less compares abs64 of the weights: +3 and -3 tie) tie
+   when the callees print alike (C08's F9) *)
 Fixpoint has_dup_cost (es : list cgedge) : bool :=
-  match es with [] => false | e :: r => existsb (fun e' => ce_cost e =? ce_cost e') r || has_dup_cost r end.
+  match es with [] => false | e :: r => existsb (fun e' => Z.abs (ce_cost e) =? Z.abs (ce_cost e')) r || has_dup_cost r end.
 Definition cg_nondet (i : term) : bool :=
   let ns := map cgnode_of (gl (gn i 4)) in
   gb (gn i 3) || has_dup ns || existsb (fun n => has_dup_cost (cn_out n)) ns.
